@@ -177,7 +177,7 @@ func cmdCheck(args []string) int {
 			if len(pf.Kinds) > 0 && !contains(pf.Kinds, o.Kind) && !o.Smoke {
 				continue
 			}
-			if len(pf.Tags) > 0 && (o.Kind == "post" || o.Kind == "inv") && !contains(pf.Tags, o.Tag) {
+			if len(pf.Tags) > 0 && (o.Kind == "post" || o.Kind == "inv") && !contains(pf.Tags, tagName(o.Tag)) {
 				continue
 			}
 			selected = append(selected, o)
@@ -486,4 +486,11 @@ func cmdReplay(args []string) int {
 	}
 	fmt.Println("the obligation still fails")
 	return 1
+}
+
+func tagName(t string) string {
+	if i := strings.IndexByte(t, ':'); i >= 0 {
+		return t[:i]
+	}
+	return t
 }
